@@ -20,7 +20,8 @@ def gen_family(rng, n_classes=None, kinds=None, n_variants=None, rich=False):
     classes, pfile = gen.gen_pipeline(rng, n_classes=n_classes or rng.randint(2, 7), alphabet=gen.SAFE, keys=gen.SAFE,
                                       kinds=kinds, avoid=('dir', 'continues') if nodir else (), modname=modname, by_name=0.3, optional=0.1, maxdepth=2)
     variants = []
-    keys = [k for k in pfile if k != 'tasks']
+    path_keys = {p.get('nic') or p['name'] for c in classes.values() for p in c['params'] if p.get('dtype') == 'path'}
+    keys = [k for k in pfile if k != 'tasks' and k not in path_keys]      # (a Path parameter takes strings only: overriding it with a random value is a type error)
     for v in range(n_variants or rng.randint(2, 4)):
         data = copy.deepcopy(pfile)
         if v > 0 and keys:
@@ -35,6 +36,16 @@ def gen_family(rng, n_classes=None, kinds=None, n_variants=None, rich=False):
                 first = rng.choice(refd).split(':')[0]
                 ns = first[:rng.randint(1, len(first))] or ns
         variants.append({'file': f'v{v}.json', 'data': data, 'ns': ns})
+    fkeys = [p.get('nic') or p['name'] for c in classes.values() for p in c['params'] if not p.get('ignore') and not p.get('dtype')
+             and (p.get('nic') or p['name']) in keys]
+    if fkeys and rng.random() < 0.25:
+        # variants that differ only in floats lying very close together (also nested): different computations all the same
+        close = [1e-11, 1e-12, 0.0, 1.00000000001, 1.0, 0.1 + 0.2, 0.3]
+        k = rng.choice(fkeys)
+        wrap = rng.choice([lambda x: x, lambda x: [x, 'u'], lambda x: {'eps': x}])
+        off = rng.randrange(len(close))
+        for idx, v in enumerate(variants):
+            v['data'][k] = wrap(close[(off + idx) % len(close)])
     files = {}
     for v in variants:
         files[v['file']] = v['data']
@@ -77,6 +88,15 @@ def gen_family(rng, n_classes=None, kinds=None, n_variants=None, rich=False):
                             'inputs': [{'by': 'name', 'ref': r_} for r_ in refs], 'pull': list(refs), 'in_kinds': {r_: classes[cid]['kind'] for r_ in refs}}
             main['tasks'] = [jid]
             v['join'] = (jid, cid, [u.split(' as ')[1] for u in uses])
+        if rich and v['ns'] and rng.random() < 0.3 and any(classes[c]['kind'] not in ('genempty',) for c in pfile['tasks']):
+            # a ROOT-level task with an OPTIONAL input named like a task that exists only inside the mounted namespace: the name is looked
+            # up at the root only, so the input is absent and the default is used — never the namespaced task
+            cid2 = rng.choice(sorted(c for c in pfile['tasks'] if classes[c]['kind'] != 'genempty'))
+            rid = f'K{len(classes)}'
+            ref2 = gen.slug_of(classes[cid2], modname)
+            classes[rid] = {'name': f'rootopt{v_index(variants, v)}', 'group': '', 'base': 'Task', 'params': [], 'kind': 'json', 'run_args': [],
+                            'inputs': [{'by': 'name', 'ref': ref2, 'default': 5}], 'pull': [ref2], 'in_kinds': {ref2: classes[cid2]['kind']}}
+            main.setdefault('tasks', []).append(rid)
         files['main_' + v['file']] = main
     # a sibling of a variant with a join task: the same tree, except for one parameter of the FIRST of the two joined inputs
     for v in [w for w in variants if w.get('join')]:
@@ -158,6 +178,9 @@ def gen_ops(rng, spec, variants, length, allow):
             ops.append({'op': 'value', 'chain': rng.choice(live), 'task': rng.choice(slugs), 'failing': failing, 'pick': rng.randrange(4)})
         elif r < 0.72 and 'force' in allow:
             ops.append({'op': 'force', 'chain': rng.choice(live), 'task': rng.choice(slugs), 'del': (not has_dir) and rng.random() < 0.4, 'pick': rng.randrange(4)})
+        elif r < 0.745 and 'force' in allow:
+            # `task.reset_data()`: the object drops the value it holds — it stays forced if it was
+            ops.append({'op': 'reset', 'chain': rng.choice(live), 'task': rng.choice(slugs), 'pick': rng.randrange(4)})
         elif r < 0.82 and 'force' in allow:
             op = {'op': 'chain_force', 'chain': rng.choice(live), 'tasks': rng.sample(slugs, rng.randint(1, min(2, len(slugs)))),
                   'del': (not has_dir) and rng.random() < 0.35, 'recompute': rng.random() < 0.4}
@@ -372,6 +395,12 @@ def run_history(spec, variants, ops, root, multichain=False, data=None, stamp=Fa
                     task.force(delete_data=op['del'])
                 except Exception as e:  # noqa
                     r['unexpected'] = f'{type(e).__name__}: {e}'[:300]
+            elif op['op'] == 'reset':
+                r['task'] = task
+                try:
+                    task.reset_data()
+                except Exception as e:  # noqa
+                    r['unexpected'] = f'{type(e).__name__}: {e}'[:300]
             elif op['op'] == 'chain_force':
                 tasks = [task_by_slug(chain, s) for s in op['tasks']]
                 tasks = [t for t in tasks if t is not None]
@@ -551,6 +580,8 @@ def portable(hist, spec):
             mops.append({'op': 'value', 'i': idx[id(r['task'])], 'failing': failing})
         elif op['op'] == 'force':
             mops.append({'op': 'force', 'i': idx[id(r['task'])], 'del': op['del']})
+        elif op['op'] == 'reset':
+            mops.append({'op': 'reset', 'i': idx[id(r['task'])]})
         elif op['op'] == 'chain_force':
             nodes = sorted(idx[id(t)] for t in r['chain'].tasks.values())
             if op.get('failing'):
@@ -660,7 +691,7 @@ def run_batch(ctx, n, allow, length=(8, 30), label='history', kinds=None, oracle
         hist = run_history(spec, variants, ops, root / f'{label}{h}', stamp=stamp)
         errs = [r['error'] for r in hist['rec'] if r.get('error')]
         if errs:
-            ctx.count('construction-error')
+            ctx.count('construction-error'); ctx.count('construction-error:' + str(errs[0]))
             if any(e != 'bad_type' for e in errs):
                 # families are well-formed by construction (only a mistyped path value can make one unconstructible)
                 ctx.case({'module': spec['module'], 'ops': ops}); ctx.diverge('family:construction', {'module': spec['module'], 'spec': spec, 'variants_full': variants}, errs, 'constructible')
@@ -835,6 +866,8 @@ def run_history_steps(spec, variants, ops, root, obs, mod):
                         mod.FAIL.clear()
                 elif op['op'] == 'force' and task is not None:
                     task.force(delete_data=False)
+                elif op['op'] == 'reset' and task is not None:
+                    task.reset_data()
                 elif op['op'] == 'chain_force':
                     ts = [task_by_slug(chain, s) for s in op['tasks']]
                     mod.FAIL.clear(); mod.FAIL.update(op.get('failing', []))
@@ -853,7 +886,16 @@ def run_history_steps(spec, variants, ops, root, obs, mod):
         by_loc = {}
         for t in topo_objects(all_chains):
             lk = (str(t.path), t.name_for_persistence)
-            by_loc[lk] = {'fullname': t.fullname, 'log': t.log, 'run_info': canon_run_info(t.run_info)}
+            # (reading a record back can itself fail on a broken implementation: that is an observation, not a harness error)
+            try:
+                lg = t.log
+            except Exception as e:  # noqa
+                lg = [f'<<reading the log raised {type(e).__name__}>>']
+            try:
+                ri = canon_run_info(t.run_info)
+            except Exception as e:  # noqa
+                ri = {'error': f'reading the run info raised {type(e).__name__}'}
+            by_loc[lk] = {'fullname': t.fullname, 'log': lg, 'run_info': ri}
         observations.append({'events_so_far': n_attempts, 'by_loc': by_loc, 'op': op})
     objs = topo_objects(all_chains)
     idx = {id(t): i for i, t in enumerate(objs)}
